@@ -312,11 +312,27 @@ class Run:
             raise Broken(f"driver {mode} failed: {p.stderr.decode('utf-8','replace')[-500:]}")
         return [l for l in p.stdout.decode("utf-8", "replace").split("\n") if l]
 
+    def sharded(self, binary, mode, lines, tag, shards=None, **kw):
+        """run_lines over strided shards in parallel (16 cores); order of results preserved"""
+        n = len(lines)
+        if shards is None:
+            shards = 1 if n < 64 else min(16, max(1, n // 32))
+        if shards <= 1:
+            return self.run_lines(binary, mode, lines, tag, **kw)
+        from concurrent.futures import ThreadPoolExecutor
+        chunks = [lines[i::shards] for i in range(shards)]      # strided: heavy cases tend to be neighbours
+        with ThreadPoolExecutor(max_workers=shards) as ex:
+            parts = list(ex.map(lambda ch: self.run_lines(binary, mode, ch, tag, **kw), chunks))
+        out = [None] * n
+        for i, part in enumerate(parts):
+            out[i::shards] = part
+        return out
+
     def impl(self, mode, lines, **kw):
-        return self.run_lines(self.harness_bin(), "exec", lines, "harness", extra_args=(mode,), **kw)
+        return self.sharded(self.harness_bin(), "exec", lines, "harness", extra_args=(mode,), **kw)
 
     def model(self, mode, lines, **kw):
-        return self.run_lines(self.driver_bin(), mode, lines, "driver", **kw)
+        return self.sharded(self.driver_bin(), mode, lines, "driver", **kw)
 
     # ---- violations --------------------------------------------------------------------------
     def match_known(self, clause, witness):
